@@ -36,7 +36,7 @@ Fifth round: C08.2 Server.put and Server.restore do not test the server state (a
 Sixth round: C08.3 the blacklist is loaded before the instances (shared with C11.1); C08.5 a replaced server gets its recorded placements back (shared with C09.4) and every server that came up is reloaded.
 Seventh round: C08.6 every change of the state takes the new since (down-since and frozen-since are different times); C08.3 the blacklist flag of every instance is the verdict of _is_blacklisted on its name, recomputed for all instances when the list changes.
 Eighth round: C08.2 at a reload the placement recorded on a server without presence goes through the normal leaf placement and is given up without that attempt only for a schedule-once instance (shared with C11.2); C08.3 every entry of the blacklist is matched against the name as a pattern - no prefilter - and the walk is left early only with the verdict 'blacklisted'.
-Ninth round: C08.6 the stored record of a server's state is written by the state recorder only, with the (state, since) pair get_state() returns.
+Ninth round: C08.6 the stored record of a server's state is written by the state recorder only, with the (state, since) pair get_state() returns. C08.1 before a server is frozen the unschedule mark of every instance on it is reset, so the marks in force are those of this freeze (F24; repaired in /repo).
 Does NOT decide timing ('in the first cycle after the timeout') over clock
 sequences.
 """
@@ -677,6 +677,55 @@ def _leaf_ignores_state(ctx):
                construct='Server.%s does not test the state' % name)
 
 
+def _marks_of_this_freeze(ctx):
+    """C08.1: a frozen server keeps its instances except those marked by
+    the freeze *in force*.  The mark is an attribute of the instance and
+    outlives the state it was set under (a thaw, or a frozen -> down -> up
+    round trip, does not touch it), so the routine that freezes a server
+    first resets the mark of every instance on it and then sets the marks it
+    was given: a freeze that names nobody moves nobody."""
+    master = ctx.index.get_class(K.MASTER, 'Master')
+    func = master.methods.get('_freeze_server')
+    ctx.require(func is not None, 'Master._freeze_server', rule='C08.1')
+    graph = ctx.cfg(func)
+    freezes = [n for n, c in K.nodes_calling(
+        graph, lambda c: K.is_meth(c, 'set_state') and c.args and
+        'frozen' in N.txt(c.args[0]))]
+    ctx.require(freezes, 'set_state(frozen) in _freeze_server',
+                rule='C08.1', func=func)
+    resets = []
+    for loop in [n for n in graph.nodes if n.kind == 'for']:
+        it = K.rtxt(func, loop.ast.iter)
+        if '.apps' not in it:
+            continue
+        var = sorted(N.for_targets(loop))[-1]
+        body = K.loop_body_nodes(loop)
+        stores = [n for n in body if any(
+            N.txt(t) == '%s.unschedule' % var and (
+                (isinstance(v, ast.Constant) and v.value is False) or
+                isinstance(v, ast.Compare))
+            for t, v, _k in K.assigns_attr(n))]
+        if not stores:
+            continue
+        skip = None
+        for start in [e.dst for e in loop.succ if e.kind == 'iter']:
+            if start in stores:
+                continue
+            skip = skip or K.find_path(start, [loop],
+                                       cut_node=lambda n: n in stores,
+                                       follow_exc=False)
+        if skip is None:
+            resets.append(loop)
+    for node in freezes:
+        ok = bool(resets) and K.guarded_by(
+            graph, node, lambda e: e.src in resets and e.kind == 'done')
+        ctx.ob('C08.1', func, node, ok,
+               'before a server is frozen the unschedule mark of every '
+               'instance on it is reset (the marks in force are those of '
+               'this freeze)',
+               construct='marks of earlier freezes reset')
+
+
 def _state_record(ctx):
     """C08.6: the stored record of a server's state - what a new master and
     a reload restart the retention clock from - is the model's own pair:
@@ -828,9 +877,12 @@ def _bookkeeping(ctx):
     fr = master.methods.get('_freeze_server')
     ctx.require(fr is not None, 'Master._freeze_server')
     graph = ctx.cfg(fr)
+    # (a mark is a store of anything but the constant False: resets of the
+    # marks of an earlier freeze are judged by C08.1)
     marks = [n for n in graph.nodes if any(
-        N.txt(t).endswith('.unschedule') for t, _v, _k in
-        K.assigns_attr(n))]
+        N.txt(t).endswith('.unschedule') and not (
+            isinstance(v, ast.Constant) and v.value is False)
+        for t, v, _k in K.assigns_attr(n))]
     ctx.require(marks, 'unschedule mark in _freeze_server', rule='C08.6')
     for node in marks:
         v = [N.txt(t.value) for t, _v, _k in K.assigns_attr(node)][0]
@@ -951,6 +1003,7 @@ def _blacklist_match(ctx):
 
 def check(ctx):
     cell, nz = _inactive(ctx)
+    _marks_of_this_freeze(ctx)
     _blacklist_match(ctx)
     _placement_guards(ctx, cell, nz)
     _ordering(ctx, cell)
@@ -983,6 +1036,10 @@ _L = 'lib/python/treadmill/scheduler/loader.py'
 _M = 'lib/python/treadmill/scheduler/master.py'
 
 MUTANTS = [
+    ('revert-F24-marks-of-earlier-freezes-kept', [(_M, """        for app in server.apps.values():
+            app.unschedule = False
+
+""", "")], 'C08.1'),
     ('retention-ignored', [(_S, """                    if expires_at <= time.time():
                         _LOGGER.debug('Expired placement: %s', name)
 """, """                    if expires_at <= time.time() or app.priority == 0:
